@@ -101,7 +101,7 @@ def cases(tier, seed):
                     "seed": [seed, "layacc", i], "cost": 6})
     nl = 100 if tier == "quick" else 5000
     for i in range(nl):
-        xr = ["mid", "mid", "small", "mid", "large", "mid"][(i // 5) % 6]
+        xr = ["mid", "mid", "small", "mid", "large", "mid", "tinycore"][(i // 5) % 7]
         out.append({"id": "lay-%d" % i, "kind": "layered", "variant": ["same_index", "merge_adjacent", "medium_outer", "thickness", "same_index_all"][i % 5],
                     "nlayers": 1 + (i // 5) % 4, "seed": [seed, "lay", i], "xregime": xr,
                     # at the Rayleigh end the layered recursion loses relative accuracy (known finding F64): what the cross-section
@@ -321,11 +321,23 @@ def _run_layered(case):
     k = scat.kmed(o)
     nl = case["nlayers"]
     # layer size parameters from the Rayleigh end to a couple of hundred (every third case at an end of the range)
-    lo, hi = {"mid": (0.3, 12.0), "small": (1e-3, 0.05), "large": (20.0, 200.0)}[case.get("xregime", "mid")]
+    lo, hi = {"mid": (0.3, 12.0), "small": (1e-3, 0.05), "large": (20.0, 200.0), "tinycore": (15.0, 60.0)}[case.get("xregime", "mid")]
+    if case.get("xregime") == "tinycore":
+        nl = max(nl, 2)
     xs = np.sort(loguniform(rng, lo, hi, nl)) * (1 + 0.07 * np.arange(nl))
+    if case.get("xregime") == "tinycore":
+        # a core far below the wavelength (a seed, a defect) inside a large sphere
+        xs[0] = float(loguniform(rng, 1e-6, 3e-4))
     rs = [float(v / k) for v in xs]
     c = (float(rng.uniform(0, 2)), float(rng.uniform(0, 2)), float(rng.uniform(6, 20)) + 2.2 * rs[-1])      # the detector stays outside the (possibly grown) sphere
     ns = [scat.cnum(scat.gen_index(rng, o, absorbing=(rng.random() < 0.3))) for _ in range(nl)]
+    if case.get("xregime") == "tinycore" and rng.random() < 0.7:
+        # ... strongly absorbing around the core (soot-like): Im(m) x of the layer between 15 and 90
+        j_ = 1 if rng.random() < 0.6 else nl - 1
+        im_ = float(rng.uniform(15, 90)) / float(xs[j_]) * o["medium_index"]
+        ns[j_] = complex(float(np.real(ns[j_])), im_)
+        if rng.random() < 0.5:
+            ns[0] = ns[j_]
     v = case["variant"]
     if v == "same_index_all":
         # every layer shares one index -> homogeneous sphere of the outer radius
